@@ -22,6 +22,12 @@ pub enum Route {
     PluralOrdinal,
     /// `t_format!` view on a reactive context, rendered under two successive locales
     CtxView,
+    /// td_display! on a fixture key
+    KeyDisplay,
+    /// td_string! on a number / currency key with an f64 value (`val` indexes fixture::F64S)
+    KeyF64,
+    /// td_plural! / td_plural_ordinal! (`idx`: 0 cardinal, 1 ordinal; `val` indexes COUNTS)
+    PluralMacro,
 }
 
 impl Route {
@@ -33,6 +39,9 @@ impl Route {
             Route::PluralCardinal => "plural_cardinal",
             Route::PluralOrdinal => "plural_ordinal",
             Route::CtxView => "ctx_view",
+            Route::KeyDisplay => "key_display",
+            Route::KeyF64 => "key_f64",
+            Route::PluralMacro => "plural_macro",
         }
     }
     fn from_name(s: &str) -> Option<Route> {
@@ -43,6 +52,9 @@ impl Route {
             "plural_cardinal" => Route::PluralCardinal,
             "plural_ordinal" => Route::PluralOrdinal,
             "ctx_view" => Route::CtxView,
+            "key_display" => Route::KeyDisplay,
+            "key_f64" => Route::KeyF64,
+            "plural_macro" => Route::PluralMacro,
             _ => return None,
         })
     }
@@ -61,7 +73,7 @@ pub struct Op {
 impl Op {
     pub fn to_json(&self) -> Value {
         let what = match self.route {
-            Route::KeyString | Route::KeyView => KEYS[self.idx].text.trim().to_string(),
+            Route::KeyString | Route::KeyView | Route::KeyDisplay | Route::KeyF64 => KEYS[self.idx].text.trim().to_string(),
             Route::Site | Route::CtxView => SITES[self.idx].text.to_string(),
             _ => String::new(),
         };
@@ -77,7 +89,7 @@ impl Op {
     }
     fn spec(&self) -> Option<Spec> {
         match self.route {
-            Route::KeyString | Route::KeyView => Some(KEYS[self.idx].spec),
+            Route::KeyString | Route::KeyView | Route::KeyDisplay | Route::KeyF64 => Some(KEYS[self.idx].spec),
             Route::Site | Route::CtxView => Some(SITES[self.idx].spec),
             _ => None,
         }
@@ -160,7 +172,11 @@ pub fn generate(rng: &mut Rng, with_faults: bool) -> Plan {
             _ => *rng.pick(&locs),
         };
         let op = if enabled_kinds.contains(&"plural") && (key_pool.is_empty() || rng.chance(1, 6)) {
-            Op { route: if rng.chance(1, 2) { Route::PluralCardinal } else { Route::PluralOrdinal }, idx: 0, locale, val: rng.below(COUNTS.len()) }
+            if rng.chance(1, 3) {
+                Op { route: Route::PluralMacro, idx: rng.below(2), locale, val: rng.below(COUNTS.len()) }
+            } else {
+                Op { route: if rng.chance(1, 2) { Route::PluralCardinal } else { Route::PluralOrdinal }, idx: 0, locale, val: rng.below(COUNTS.len()) }
+            }
         } else if key_pool.is_empty() {
             Op { route: Route::PluralCardinal, idx: 0, locale, val: rng.below(COUNTS.len()) }
         } else {
@@ -169,7 +185,13 @@ pub fn generate(rng: &mut Rng, with_faults: bool) -> Plan {
                 _ => {
                     let r = rng.below(10);
                     if r < 5 || site_pool.is_empty() {
-                        Op { route: if r < 1 { Route::KeyView } else { Route::KeyString }, idx: *rng.pick(&key_pool), locale, val: rng.below(n_vals) }
+                        let idx = *rng.pick(&key_pool);
+                        let numeric = matches!(KEYS[idx].spec, Spec::Number(_) | Spec::Currency(..));
+                        if numeric && rng.chance(1, 4) {
+                            Op { route: Route::KeyF64, idx, locale, val: rng.below(fixture::F64S.len()) }
+                        } else {
+                            Op { route: if r < 1 { Route::KeyView } else if r < 2 { Route::KeyDisplay } else { Route::KeyString }, idx, locale, val: rng.below(n_vals) }
+                        }
                     } else if r < 7 {
                         Op { route: Route::KeyView, idx: *rng.pick(&key_pool), locale, val: rng.below(n_vals) }
                     } else {
@@ -247,6 +269,9 @@ fn exec_op(op: &Op, vals: &[Val]) -> String {
     match op.route {
         Route::KeyString => fixture_table::call_key_string(op.idx, loc, &vals[op.val]),
         Route::KeyView => fixture_table::call_key_view(op.idx, loc, &vals[op.val]),
+        Route::KeyDisplay => fixture_table::call_key_display(op.idx, loc, &vals[op.val]),
+        Route::KeyF64 => fixture_table::call_key_f64(op.idx, loc, fixture::F64S[op.val % fixture::F64S.len()]).unwrap_or_default(),
+        Route::PluralMacro => fixture_table::call_plural_macro(op.idx == 1, loc, COUNTS[op.val % COUNTS.len()]).to_string(),
         Route::Site => fixture_table::call_site(op.idx, loc, &vals[op.val]),
         Route::CtxView => {
             use leptos::prelude::*;
@@ -289,6 +314,12 @@ pub fn expected(op: &Op, vals: &[Val]) -> Result<String, String> {
             let tag = if KEYS[op.idx].only_in_default { "en" } else { loc };
             fixture::reference(KEYS[op.idx].spec, loc, &vals[op.val]).map(|s| if s.is_empty() { format!("{tag}| ") } else { format!("{tag}|{s}") })
         }
+        Route::KeyDisplay => fixture::reference(KEYS[op.idx].spec, loc, &vals[op.val]).map(|s| format!("{}|{s}", if KEYS[op.idx].only_in_default { "en" } else { loc })),
+        Route::KeyF64 => {
+            let fd = fixture::f64_to_fixed(fixture::F64S[op.val % fixture::F64S.len()]);
+            fixture::reference_with_decimal(KEYS[op.idx].spec, loc, &fd).map(|s| format!("{}|{s}", if KEYS[op.idx].only_in_default { "en" } else { loc }))
+        }
+        Route::PluralMacro => fixture::reference_plural_category(op.idx == 1, loc, COUNTS[op.val % COUNTS.len()]).map(String::from),
         Route::Site => fixture::reference(SITES[op.idx].spec, loc, &vals[op.val]),
         Route::CtxView => {
             let view = |l: &str| fixture::reference(SITES[op.idx].spec, l, &vals[op.val]).map(|s| if s.is_empty() { " ".to_string() } else { s });
